@@ -65,11 +65,24 @@ type Addr struct {
 	nilWhen *Term // non-nil: the pointer is nil exactly when this holds (merge of an address with nil)
 }
 
+// (Exec.entryAllocs: allocation counters at the entries of the contract
+// functions being used, innermost last; verify mode uses alloc!0.)
+
 type mapIter struct {
 	m     *Term
 	mt    *types.Map
 	str   *Term
 	isStr bool
+	id    *Term // ghost identity of this iteration (index of its visited set)
+	d0    *Term // domain of the map when the iteration started
+}
+
+// visComps: ghost components of map iteration: the visited set of every
+// iteration (indexed by iteration id) and the latest iteration over each map.
+func (x *Exec) visComps(mt *types.Map) (vis, cur string, ks Sort) {
+	ks = x.w.sortOf(mt.Key())
+	id := sanitize(string(ks))
+	return "Gvis_" + id, "Gcur_" + id, ks
 }
 
 // ---------------------------------------------------------------------------
@@ -108,6 +121,7 @@ type Obligation struct {
 }
 
 type Exec struct {
+	entryAllocs []*Term
 	w        *World
 	prog     *ssa.Program
 	eng      *Engine
